@@ -41,6 +41,10 @@ use tokio::sync::{
 };
 use tracing::{debug, debug_span, trace, warn};
 
+#[cfg(feature = "verif")]
+#[path = "socket_verif.rs"]
+pub mod verif;
+
 type ConnectionId = SeqNr;
 
 // When we get incoming packets this connection id is used to pick the stream.
